@@ -34,6 +34,21 @@ Definition bindo {A} (r : res A) (k : A -> outcome) : outcome :=
 Definition attr_ok (t : pterm) : res unit :=
   match t with PNone | PSlot _ => ROut (OStuck "AttributeError") | _ => RVal tt end.
 
+(* x.with_args() with NO arguments: Term subclasses with their own constructor signature (Not, And, Or, Clause,
+   AnnotatedDisjunction) raise TypeError.  The Python class of a term is not observable in pterm, so for the
+   functors those classes use the model makes no claim (OUnknown) and the safety theorem excludes them. *)
+Definition class_functor (t : pterm) : bool :=
+  match t with
+  | PApp f [_] => existsb (String.eqb f) ["\+"; "not"]
+  | PApp f [_; _] => existsb (String.eqb f) [","; ";"; ":-"; "<-"]
+  | _ => false
+  end.
+Definition with_args0_ok (t : pterm) : res unit :=
+  match t with
+  | PNone | PSlot _ => ROut (OStuck "AttributeError")
+  | _ => if class_functor t then ROut OUnknown else RVal tt
+  end.
+
 (* int(x).  On a Python-int variable slot int() would silently return the slot number: modelled as stuck
    (a variable must never reach int()). *)
 Definition int_of (t : pterm) : res Z :=
@@ -186,7 +201,7 @@ Definition body_split_call (args : list pterm) : outcome :=
               if negb (is_atom_b hd) then OCallModeError
               else bindo (call_term hd rest) (fun t => ORes [[t; parts]])
           end
-        else bindo (attr_ok term) (fun _ => OAny))          (* term.with_args(), term.args, unify_value, elements[0](...) *)
+        else bindo (with_args0_ok term) (fun _ => OAny))     (* term.with_args(), term.args, unify_value, elements[0](...) *)
   | _ => bad_arity
   end.
 
@@ -305,7 +320,7 @@ Definition bin_op (name : string) (v w : aval) : ares :=
       if String.eqb name "+" then AV (VI (a + b)) else
       if String.eqb name "-" then AV (VI (a - b)) else
       if String.eqb name "*" then AV (VI (a * b)) else
-      if String.eqb name "//" then (if (b =? 0)%Z then AErr else AV (VI (a / b))) else
+      if String.eqb name "//" then (if (b =? 0)%Z then AErr else AV (VI (Z.quot a b))) else   (* truncating since repo commit 0b983d1 *)
       if mem name ["mod"; "rem"] then (if (b =? 0)%Z then AErr else AV (VI (a mod b))) else
       if String.eqb name "div" then (if (b =? 0)%Z then AErr else AV (VI ((a - a mod b) / b))) else
       if String.eqb name "/" then (if (b =? 0)%Z then AErr else AUnknown) else
